@@ -203,3 +203,84 @@ Proof. exact ComposeSelfPlay.transcript_positions_wf. Qed.
 Theorem C11_transcript_positions_encodable : forall cfg s tr e f, play_one_game cfg s = Done tr e f ->
   3 <= sp_size cfg <= 6 -> Forall EncodingSpec.encodable (t_positions tr).
 Proof. exact ComposeSelfPlay.transcript_positions_encodable. Qed.
+
+(* ---- the same about play_one_game / Transcript.results / Transcript.logits REGENERATED FROM THE SOURCE (gen/SelfPlayGen.v, harness/py2coq.py against model/PySem.v + SelfPlaySem.v; proofs/SelfPlayGenEq.v); the engine enters as an oracle stream ---- *)
+From Coq Require Import ZArith QArith Qabs List Bool.
+From TV Require gen.Consts.
+From TV Require Import model.Tak model.Road model.PySem model.SelfPlay model.SelfPlaySem spec.SelfPlaySpec.
+From TV Require Import proofs.GameGenEq proofs.SelfPlayGenEq.
+From TV Require gen.GameGen gen.EncodingGen gen.SelfPlayGen.
+(* the translated loop IS the model's loop, for every configuration with a board size whose default piece counts
+   exist and every oracle stream whose children are consistent *)
+Theorem C11_source_play_one_game_eq :
+  forall cfg s, 0 <= sp_size cfg <= 8 -> kids_ok cfg (start cfg) s ->
+  SelfPlayGen.play_one_game cfg s = embed_outcome (SelfPlay.play_one_game cfg (map answer_of s)).
+Proof. exact gen_play_one_game_eq. Qed.
+(* a transcript, or one of the three exceptions of the model; never OutOfFuel, never anything else *)
+Theorem C11_source_play_outcomes :
+  forall cfg s, 0 <= sp_size cfg <= 8 -> kids_ok cfg (start cfg) s ->
+  (exists tr, SelfPlayGen.play_one_game cfg s = Ok tr) \/
+  (exists e, SelfPlayGen.play_one_game cfg s = Crash e /\ (e = OracleExhausted \/ e = ZeroDivisionError \/ e = IndexError)).
+Proof. exact gen_play_outcomes. Qed.
+(* Transcript.results, every transcript *)
+Theorem C11_source_results_eq :
+  forall tr, SelfPlayGen.results tr = map inject_Z (SelfPlay.results tr).
+Proof. exact gen_results_eq. Qed.
+(* Transcript.logits: the same rows, or IndexError / KeyError where the model says None *)
+Theorem C11_source_logits_agrees :
+  forall tr,
+  (forall p0, nth_error (t_positions tr) 0 = Some p0 -> 0 <= size p0 <= 6) ->
+  (length (t_moves tr) <= length (t_probs tr))%nat ->
+  lagrees (SelfPlayGen.logits tr) (SelfPlay.logits tr).
+Proof. exact gen_logits_agrees. Qed.
+(* positions start at the initial position and each follows from the previous by a recorded candidate; ply i at index i *)
+Theorem C11_source_transcript_chain :
+  forall cfg s tr, 0 <= sp_size cfg <= 8 -> kids_ok cfg (start cfg) s ->
+  SelfPlayGen.play_one_game cfg s = Ok tr ->
+  (forall p0, nth_error (t_positions tr) 0 = Some p0 -> p0 = start cfg) /\
+  (forall i p q, nth_error (t_positions tr) i = Some p -> nth_error (t_positions tr) (S i) = Some q ->
+     exists a m, nth_error (map answer_of s) i = Some a /\ nth_error (t_moves tr) i = Some (a_moves a) /\
+                 picks a m /\ In m (a_moves a) /\ move p m = Some q) /\
+  (forall i p, nth_error (t_positions tr) i = Some p -> ply p = Z.of_nat i).
+Proof. exact gen_transcript_chain. Qed.
+(* play stops at the first terminal position, at resignation, or when the ply limit is exceeded *)
+Theorem C11_source_stops_exactly :
+  forall cfg s tr, 0 <= sp_size cfg <= 8 -> kids_ok cfg (start cfg) s ->
+  SelfPlayGen.play_one_game cfg s = Ok tr -> exists e f,
+  (forall i p, nth_error (t_positions tr) i = Some p -> ~ over_limit cfg p /\ ~ terminal p) /\
+  (forall i a, (S i < length (t_positions tr))%nat -> nth_error (map answer_of s) i = Some a -> ~ resign_now cfg a) /\
+  match e with
+  | ExitLimit => over_limit cfg f /\ final_after cfg (start cfg) (map answer_of s) tr f
+  | ExitRules r => ~ over_limit cfg f /\ snd (winner f) = Some r /\ final_after cfg (start cfg) (map answer_of s) tr f
+  | ExitResign => exists n a, length (t_positions tr) = S n /\ nth_error (t_positions tr) n = Some f /\
+                    nth_error (map answer_of s) n = Some a /\ resign_now cfg a
+  end.
+Proof. exact gen_stops_exactly. Qed.
+(* the recorded result is the winner by the rules or by resignation, None for draws and games cut off by the limit *)
+Theorem C11_source_result_correct :
+  forall cfg s tr, 0 <= sp_size cfg <= 8 -> kids_ok cfg (start cfg) s ->
+  SelfPlayGen.play_one_game cfg s = Ok tr -> exists e f,
+  SelfPlay.play_one_game cfg (map answer_of s) = Done tr e f /\
+  match e with
+  | ExitRules r => snd (winner f) = Some r /\ t_result tr = fst (winner f)
+  | ExitLimit => t_result tr = None
+  | ExitResign =>
+      exists n a, length (t_positions tr) = S n /\ nth_error (t_positions tr) n = Some f /\
+        nth_error (map answer_of s) n = Some a /\ resign_now cfg a /\
+        ((sp_threshold cfg <= a_vzero a)%Q -> t_result tr = Some (to_move f)) /\
+        (~ (sp_threshold cfg <= a_vzero a)%Q -> t_result tr = Some (flip (to_move f))) /\
+        ((0 < sp_threshold cfg)%Q ->
+           ((0 < a_vzero a)%Q -> t_result tr = Some (to_move f)) /\
+           ((a_vzero a < 0)%Q -> t_result tr = Some (flip (to_move f))) /\
+           ~ (a_vzero a == 0)%Q)
+  end.
+Proof. exact gen_result_correct. Qed.
+(* labels: +1 where the winner is to move, -1 where the loser is, 0 throughout when there is no winner *)
+Theorem C11_source_labels_correct :
+  forall tr,
+  length (SelfPlayGen.results tr) = length (t_positions tr) /\
+  (t_result tr = None -> forall i p, nth_error (t_positions tr) i = Some p -> nth_error (SelfPlayGen.results tr) i = Some (inject_Z 0)) /\
+  (forall w, t_result tr = Some w -> forall i p, nth_error (t_positions tr) i = Some p ->
+     (to_move p = w -> nth_error (SelfPlayGen.results tr) i = Some (inject_Z 1)) /\
+     (to_move p = flip w -> nth_error (SelfPlayGen.results tr) i = Some (inject_Z (-1)))).
+Proof. exact gen_labels_correct. Qed.
